@@ -1,4 +1,6 @@
 """C17 - heavy-hitter and threshold tables are consistent with the returned estimates (thin)."""
+import gc
+
 from ..core import Scenario, Violation
 from ..worlds import structs
 from . import PropSpec
@@ -12,13 +14,26 @@ class C17Tables(Scenario):
         cfg = structs.SketchSubject.gen_cfg(rng)
         cfg["sizing"] = {"width": rng.choice((1, 2, 3, 3, 50)), "depth": rng.between(1, 3)}
         cfg.update({"subject": rng.choice(("HeavyHitters", "StreamThreshold")), "steps": rng.between(4, self.max_steps),
-                    "universe": rng.between(7, 12), "param": rng.between(1, 10)})
+                    "universe": rng.between(7, 12), "param": rng.between(1, 10),
+                    # an object of the same class lives (long enough to evict / cross the threshold) and dies before
+                    # the subject is built; CPython hands its address to the subject
+                    "prior_obj": rng.chance(1, 4)})
+        if rng.chance(1, 60):
+            # tables of several hundred entries, a sketch wide enough that estimates are mostly exact
+            cfg.update({"sizing": {"width": rng.choice((1500, 4000)), "depth": rng.between(1, 2)},
+                        "param": rng.choice((512, 520, 600)), "universe": 700, "big": True, "steps": rng.between(4, 9)})
         return cfg
 
     def gen_step(self, rng):
         if self.n_gen >= self.cfg["steps"]:
             return None
         self.n_gen += 1
+        if self.cfg.get("big"):
+            if self.n_gen == 1 or rng.chance(1, 5):
+                return {"op": "bulk", "k0": rng.choice((0, 0, 50)), "cnt": rng.choice((520, 640, 700)),
+                        "base": rng.choice((1, 100)), "gap": rng.choice((5, 7))}
+            if rng.chance(1, 2):
+                return {"op": "low_pair", "k1": rng.between(640, 699), "k2": rng.between(640, 699)}
         if rng.chance(1, 12):
             return {"op": "add", "k": rng.below(self.cfg["universe"]), "n": 0}  # adding nothing is still an add of that key
         return self.sub.gen_op(rng)
@@ -27,8 +42,20 @@ class C17Tables(Scenario):
         self.cfg = cfg
         self.n_gen = 0
         self.env = structs.Env(self.ctx, cfg, need_fs=False)
+        dead = None
+        if cfg.get("prior_obj"):
+            d = structs.ALL_SUBJECTS[cfg["subject"]](self.env, dict(cfg, _decoy=True))
+            d.build()
+            for i in range(min(cfg["param"], 12) + 4):
+                d.apply_op({"op": "add", "k": i % cfg["universe"], "n": 2 + 3 * i})
+            dead = id(d.obj)
+            del d
+            gc.collect()
+            self.ctx.fault("prior_life")
         self.sub = structs.ALL_SUBJECTS[cfg["subject"]](self.env, cfg)
         self.o = self.sub.build()
+        if dead is not None and id(self.o) == dead:
+            self.ctx.fault("object_id_reused")
         self.last = {}  # key index -> estimate returned by its most recent add/remove
 
     def apply(self, step):
@@ -36,10 +63,31 @@ class C17Tables(Scenario):
         sub = self.sub
         o = self.o
         ctx.count("op." + step["op"])
-        r = sub.apply_op(step)
-        if r == "skip":
-            return "skip"
-        self.last[step["k"]] = r
+        if step["op"] == "bulk":
+            # many distinct keys with distinct amounts, one add each
+            r = None
+            for j in range(step["cnt"]):
+                k = (step["k0"] + j) % self.cfg["universe"]
+                r = sub.apply_op({"op": "add", "k": k, "n": step["base"] + step["gap"] * ((j * 37) % step["cnt"])})
+                self.last[k] = r
+            ctx.fault("bulk_adds")
+        elif step["op"] == "low_pair":
+            # two newcomers aimed between the two smallest tracked estimates (amounts derived from the current table)
+            if sub.name != "HeavyHitters" or len(o.heavy_hitters) < 2:
+                return "skip"
+            lows = sorted(o.heavy_hitters.values())[:2]
+            r = None
+            for j, k in enumerate((step["k1"], step["k2"])):
+                have = self.last.get(k, 0)
+                n = max(1, lows[0] + 1 + j - have)
+                r = sub.apply_op({"op": "add", "k": k, "n": n})
+                self.last[k] = r
+            ctx.fault("newcomers_between_lowest")
+        else:
+            r = sub.apply_op(step)
+            if r == "skip":
+                return "skip"
+            self.last[step["k"]] = r
         sig = {"class": sub.name, "op": step["op"]}
         want_keys = {sub.key(k): v for k, v in self.last.items()}
         if sub.name == "HeavyHitters":
